@@ -267,6 +267,103 @@ def inline_site(F, call, H, site_no):
     return True
 
 
+def _sig(fd):
+    return {n.get("callee") for n in fd["nodes"] if n["k"] == "CallExpr" and n.get("callee")} | {"." + n["fld"] for n in fd["nodes"] if n["k"] == "MemberExpr"}
+
+
+def resolve_renames(d, config, root):
+    """A reference function with internal linkage that is missing, while a *new* internal function of the same file has the
+    same parameter types (possibly in another order), the same return type and essentially the same body signature (callees and
+    fields touched), was renamed and/or had its parameters re-ordered. The analysis is anchored in the reference names and
+    parameter positions, so the new function is presented under the old name with the old parameter order (call sites
+    included). Returns the list of (old name, new name, permutation)."""
+    ref = reference()
+    if not ref:
+        return []
+    fns = [fd for fd in d["functions"] if "miverif_probe" not in fd["file"]]
+    present = {fd["name"] for fd in fns}
+    gone = [r for r, e in ref.items() if e.get("static") and config in e.get("configs", []) and r not in present]
+    new = [fd for fd in fns if fd["name"] not in ref and fd.get("static") and fd.get("cfg") is not None]
+    done = []
+    used = set()
+    for r in sorted(gone):
+        e = ref[r]
+        best = None
+        for fd in new:
+            if id(fd) in used or fd["file"].replace(root.rstrip("/") + "/", "") != e["file"]:
+                continue
+            if sorted(p["t"] for p in fd["params"]) != sorted(e["params"]) or fd.get("ret", "") != e.get("ret", fd.get("ret", "")):
+                continue
+            a, b = _sig(fd), set(e.get("sig", []))
+            score = len(a & b) / float(len(a | b)) if (a | b) else 1.0
+            if best is None or score > best[0]:
+                best = (score, fd)
+        if best is None or best[0] < 0.7:
+            continue
+        fd = best[1]
+        used.add(id(fd))
+        # parameter permutation: reference position k takes the first unused parameter of that type
+        perm, taken = [], set()
+        for t in e["params"]:
+            k = next(i for i, p in enumerate(fd["params"]) if p["t"] == t and i not in taken)
+            taken.add(k)
+            perm.append(k)
+        old_name = fd["name"]
+        fd["name"] = r
+        fd["renamed_from"] = old_name
+        fd["params"] = [fd["params"][k] for k in perm]
+        fd["pids"] = [fd["pids"][k] for k in perm]
+        for F in d["functions"]:
+            for n in F["nodes"]:
+                if n["k"] == "CallExpr" and n.get("callee") == old_name:
+                    n["callee"] = r
+                    if len(n.get("args", [])) == len(perm):
+                        n["args"] = [n["args"][k] for k in perm]
+                elif n["k"] == "DeclRefExpr" and n.get("dk") == "fn" and n.get("n") == old_name:
+                    n["n"] = r
+        done.append((r, old_name, perm))
+    # same name, parameters re-ordered (a permutation of the reference types): present them in the reference order
+    for fd in fns:
+        e = ref.get(fd["name"])
+        if e is None or not e.get("static") or not fd.get("static") or "renamed_from" in fd:
+            continue
+        cur = [p["t"] for p in fd["params"]]
+        if cur == e["params"] or sorted(cur) != sorted(e["params"]):
+            continue
+        perm, taken = [], set()
+        for t in e["params"]:
+            k = next(i for i, p in enumerate(fd["params"]) if p["t"] == t and i not in taken)
+            taken.add(k)
+            perm.append(k)
+        fd["params"] = [fd["params"][k] for k in perm]
+        fd["pids"] = [fd["pids"][k] for k in perm]
+        for F in d["functions"]:
+            for n in F["nodes"]:
+                if n["k"] == "CallExpr" and n.get("callee") == fd["name"] and len(n.get("args", [])) == len(perm):
+                    n["args"] = [n["args"][k] for k in perm]
+        done.append((fd["name"], fd["name"], perm))
+    return done
+
+
+def drift(d, config):
+    """reference functions with internal linkage that are (still) missing from this configuration, or whose parameter types
+    differ from the reference: rules anchored in them cannot decide anything on this tree"""
+    ref = reference()
+    present = {}
+    for fd in d["functions"]:
+        present.setdefault(fd["name"], fd)
+    out = {}
+    for r, e in ref.items():
+        if config not in e.get("configs", []):
+            continue
+        if r not in present:
+            if e.get("static"):
+                out[r] = "vanished (renamed, inlined into its callers or removed)"
+        elif [p["t"] for p in present[r]["params"]] != e["params"]:
+            out[r] = "signature changed from (%s) to (%s)" % (", ".join(e["params"]), ", ".join(p["t"] for p in present[r]["params"]))
+    return out
+
+
 def apply(d):
     """inline every new private helper of the extraction result d (in place); returns the list of (caller, helper) pairs"""
     cand = candidates(d)
